@@ -15,6 +15,7 @@ CHECKS = {
     "C05": "pprops",
     "C12": "pprops",
     "C13": "pprops",
+    "C14": "c14",
     "C16": "c16",
     "C17": "c17",
     "C07": "c07",
